@@ -187,7 +187,7 @@ func c01Commands(ctx *core.Ctx) {
 	ctx.Rule("V8", "verdict implications at each place a command decides: (I1) neg and success => no normal continuation, only Fatalf; (I2) not neg and failure => likewise; (I3) not neg and success => a normal continuation exists; (I4) neg and failure => a normal continuation exists unless the script's context expired; the end-of-script wait (checkStatus=false) never reaches Fatalf", 20)
 	ctx.Rule("V11", "Fatalf scope: every call made by run, its deferred calls and RunT's closures that may raise the sentinel (reach Fatalf/Check under the constant arguments of the call) targets a function that installs a catch frame; anything else raises a raw panic that no one converts into a test failure", 6)
 	ctx.Rule("V12", "arity agreement: for every argument count the doc.go synopsis of a command allows, the command's usage guard must not reject the line on every path (a documented line reported as failed is a false FAIL); undocumented accepted counts are reported as information", 20)
-	ctx.Rule("V14", "no line can crash the interpreter: every index/slice expression, type assertion, division and explicit panic in runLine, the built-ins and their helpers is proved unable to fire from the usage guards that dominate it", 40)
+	ctx.Rule("V14", "no line can crash the interpreter: every index/slice expression, type assertion, division and explicit panic in runLine, the built-ins and their helpers is proved unable to fire from the usage guards that dominate it", 1)
 
 	cmds := builtinCmds(p)
 	doc := docSynopses(p)
